@@ -122,10 +122,10 @@ PROPS = {
     "C11": {
         "modules": ["Hannibal.Props.C11", "Hannibal.Props.C11Current", "Hannibal.Props.C11C", "Hannibal.Props.C11CCurrent",
                     "Hannibal.Props.C11T", "Hannibal.Props.C11TCurrent", "Hannibal.Proofs.C11TProj",
-                    "Hannibal.Props.C11Shape"],
+                    "Hannibal.Props.C11Shape", "Hannibal.Props.CancelErr", "Hannibal.Props.CancelErrCurrent"],
         "theorems": ["Hannibal.C11_holds", "Hannibal.C11_current", "Hannibal.C11c_holds", "Hannibal.C11c_current",
                      "Hannibal.C11t_holds", "Hannibal.C11t_current", "Hannibal.prun_run", "Hannibal.monC11p_ok_imp_monC11t",
-                     "Hannibal.shape11_current"],
+                     "Hannibal.shape11_current", "Hannibal.CancelErr_holds", "Hannibal.CancelErr_current"],
         "cases": {"quick": {"C11": 1500}, "thorough": {"C11": 20000, "x:C11": 320, "C06": 3000}},
         "assumptions": COMMON_ASSUMPTIONS + [
             "prompt-schedule clauses of monC11p (needs-less-than-t completes, needs-more is abandoned exactly at t) are "
@@ -163,11 +163,13 @@ PROPS = {
     "C02": {
         "modules": ["Hannibal.Props.C02", "Hannibal.Props.C02Current", "Hannibal.Props.C02Guarded",
                     "Hannibal.Props.C02C", "Hannibal.Props.C02CCurrent",
-                    "Hannibal.Props.SendErr", "Hannibal.Props.SendErrCurrent"],
+                    "Hannibal.Props.SendErr", "Hannibal.Props.SendErrCurrent",
+                    "Hannibal.Props.CancelErr", "Hannibal.Props.CancelErrCurrent"],
         "theorems": ["Hannibal.C02_holds", "Hannibal.C02_current", "Hannibal.C02_split", "Hannibal.C02t_holds",
                      "Hannibal.C02orig_holds", "Hannibal.C02orig_current", "Hannibal.C02g_holds",
                      "Hannibal.C02c_holds", "Hannibal.C02c_current",
-                     "Hannibal.SendErr_holds", "Hannibal.SendErr_current"],
+                     "Hannibal.SendErr_holds", "Hannibal.SendErr_current",
+                     "Hannibal.CancelErr_holds", "Hannibal.CancelErr_current"],
         "cases": {"quick": {"C02": 1500}, "thorough": {"C02": 20000, "x:C02": 320, "C06": 3000, "C04": 3000}},
         "assumptions": COMMON_ASSUMPTIONS + [
             "operation ids of the trace are fresh (opIdsFresh, checked on every real trace by monC02wf)",
